@@ -9,7 +9,9 @@ LEVEL_TEXT = ("Coq theorems over the transcribed net/textproto dot decoder: for 
               "300 KB lines (MBs in the thorough tier) through a real SMTP session and reading them back through Store.Source, REST /source, "
               "web-UI /source and POP3 RETR on both real stores, sizes through Store.Size, the REST listing and POP3 LIST")
 LEVEL_NOTE = ("Coq kernel; extraction; the dotReader state machine is transcribed from Go's source (validated by the correspondence run, "
-              "not verified); the store copy, the HTTP handlers, the trace-header prefix, size = length and the agreement of the interfaces are covered by the differential run only "
+              "not verified); the trace-header prefix is tied to the source by the translator: the three Sprintf formats, their argument expressions and the io.MultiReader order are "
+              "regenerated on every run (Gen/SmtpTrace.v) and trace_headers_are_the_source_formats / stored_pieces_in_source_order prove that the model's stored_source renders exactly "
+              "them; the store copy, the HTTP handlers, size = length and the agreement of the interfaces are covered by the differential run only "
               "(the POP3 line writer has theorems: pop3_roundtrip*); lf_norm is not idempotent (a line ending CR CR LF keeps one CR in the store and loses it at POP3's CR trim); the Received "
               "timestamp is masked; POP3 output is compared after CRLF->LF normalisation, which the property allows")
 DESIGN_REF = "DESIGN.md §4 C02"
